@@ -125,7 +125,13 @@ class Ref:
         for g in self.data['genes']:
             for t in g['txs']:
                 if t.get('cds'):
-                    out.append((t['pid'], t['id'], g['id'], g['name'], self.protein(t['id']),
+                    seq = self.protein(t['id'])
+                    k = t.get('stop_in_protein')
+                    if k is not None and 0 < k < len(seq) - 1:
+                        # a proteome entry with an internal '*' (an "invalid protein", see
+                        # --invalid-protein-as-noncoding)
+                        seq = seq[:k] + '*' + seq[k + 1:]
+                    out.append((t['pid'], t['id'], g['id'], g['name'], seq,
                         'cds_start_NF' in t.get('tags', [])))
         # proteins whose transcript is not part of the annotation (proteome and GTF need not
         # cover the same set): [position, protein id, transcript id, gene id, name, sequence]
